@@ -42,6 +42,12 @@ StepClauses(e) ==
     [] e.op = "dotelem"  -> IF Has(e.pre.insw, e.sym)
                             THEN ReplaceClauses(A(e), e.pre, FirstIdx(e.pre.insw, e.sym), e.kid, e.sym, e.res, e.post)
                             ELSE AddClauses(A(e), e.pre, e.kid, e.sym, NoFwd, FALSE, e.res, e.post)
+    \* C15: a value shortcut sets the value of the first child of that name, or adds a new child built from the value
+    [] e.op = "dotval"   -> IF Has(e.pre.insw, e.sym)
+                            THEN [ante |-> [C15_valframe |-> e.res.ok, C19_quiet |-> TRUE],
+                                  holds |-> [C15_valframe |-> e.res.ok => (e.post.ins = e.pre.ins /\ e.post.ord = e.pre.ord), C19_quiet |-> Quiet(e.res)]]
+                            ELSE IF e.res.ok /\ e.kid = 0 THEN [ante |-> [C15_valframe |-> TRUE], holds |-> [C15_valframe |-> FALSE]]
+                            ELSE AddClauses(A(e), e.pre, e.kid, e.sym, NoFwd, FALSE, e.res, e.post)
     \* C15: assigning None removes the first child of that name; with none present it is a no-op
     [] e.op = "dotnone"  -> IF Has(e.pre.insw, e.sym)
                             THEN RemoveClauses(A(e), e.pre, FirstIdx(e.pre.insw, e.sym), e.res, e.post)
@@ -59,6 +65,7 @@ TwinClauses(e) ==
         C11_obs    |-> e.tw11 # 0 /\ CleanAdds(Trace[e.tw11].parent),
         C11_state  |-> e.tw11s # 0 /\ CleanAdds(e.tw11s),
         C15_same   |-> e.tw15 # 0,
+        C15_readchild |-> e.reads # <<>>,
         \* C18: for children supplied in a schema-valid order the unchecked element's output is byte-identical
         C18_same   |-> /\ e.tw18 # 0 /\ e.op = "tostring" /\ ~e.pre.chk
                        /\ LET f == Trace[e.tw18] IN f.res.ok /\ f.post.ordw = f.post.insw /\ f.post.insw = e.post.insw ]
@@ -72,11 +79,19 @@ TwinClauses(e) ==
    C11_state  |-> ante.C11_state => e.post.ordw = Trace[e.tw11s].post.ordw,
    \* shortcut == explicit call
    C15_same   |-> ante.C15_same => SameObs(Obs(e), Obs(Trace[e.tw15])),
+   \* reading e.xml_x: a child of that name that the element holds (which one, when there are several, is not
+   \* constrained), None when there is none; never an error for a schema child
+   C15_readchild |-> ante.C15_readchild =>
+        \A j \in DOMAIN e.reads :
+           LET nm == e.reads[j][1]  got == e.reads[j][2]
+           IN IF Has(e.post.insw, nm)
+              THEN got \in Range(e.post.ins) /\ e.post.insw[IndexOf(e.post.ins, got)] = nm
+              ELSE got = 0,
    C18_same   |-> ante.C18_same => (e.res.ok /\ e.text = Trace[e.tw18].text) ]]
 
 AllClauses == {"C01_word", "C01_text", "C02_accept", "C02_final", "C06_add", "C06_remove", "C06_replace", "C06_out",
                "C07_ext", "C10_frame", "C10_future", "C11_obs", "C11_state", "C12_reject", "C12_unique", "C15_same",
-               "C15_noop", "C16_pure", "C16_future", "C18_free", "C18_same", "C19_class", "C19_quiet", "cascade"}
+               "C15_noop", "C15_valframe", "C15_readchild", "C16_pure", "C16_future", "C18_free", "C18_same", "C19_class", "C19_quiet", "cascade"}
 
 VARIABLES i, cnt     \* cnt[n] = number of steps so far that exercised clause n (non-vacuity accounting)
 
@@ -84,14 +99,13 @@ Init == i = 1 /\ cnt = [n \in AllClauses |-> 0]
 Next == /\ i <= Len(Trace)
         /\ LET e == Trace[i] IN
            /\ IF WellFormed(e.pre) /\ WellFormed(e.post) /\ Continuous(e) THEN TRUE ELSE Report(<<"BROKEN", i>>)
-           \* a step whose pre-state is already inconsistent (the two views disagree) lies behind an
-           \* earlier, reported divergence: it is counted as a cascade and not judged again
-           /\ IF ~Sane(e.pre) THEN cnt' = [cnt EXCEPT !["cascade"] = @ + 1]
-              ELSE LET sc == StepClauses(e)  tc == TwinClauses(e)
-                       v == Failing(sc) \cup Failing(tc)
-                       x == Exercised(sc) \cup Exercised(tc)
-                   IN /\ (IF v = {} THEN TRUE ELSE Report(<<"V", i, v>>))
-                      /\ cnt' = [n \in AllClauses |-> cnt[n] + (IF n \in x THEN 1 ELSE 0)]
+           \* a step whose pre-state is already inconsistent (the two views disagree) lies behind an earlier, reported
+           \* divergence; it is still judged (so that each property names its own symptom) and counted as "cascade"
+           /\ LET sc == StepClauses(e)  tc == TwinClauses(e)
+                  v == Failing(sc) \cup Failing(tc)
+                  x == Exercised(sc) \cup Exercised(tc) \cup (IF Sane(e.pre) THEN {} ELSE {"cascade"})
+              IN /\ (IF v = {} THEN TRUE ELSE Report(<<"V", i, v>>))
+                 /\ cnt' = [n \in AllClauses |-> cnt[n] + (IF n \in x THEN 1 ELSE 0)]
         /\ i' = i + 1
 Spec == Init /\ [][Next]_<<i, cnt>>
 Done == (i = Len(Trace) + 1) => Report(<<"DONE", Len(Trace), cnt>>)
